@@ -1316,6 +1316,16 @@ package mcp
 // is the string itself.
 //@ func primitiveToString [C12]
 //@   ensures @strings-are-mirrored-verbatim typeIs(value, string) ==> result.1 && result.0 == value.(string)
+//@   ensures @integers-are-mirrored-in-decimal typeIs(value, int64) ==> result.1 && result.0 == fmtInt(value.(int64))
+// primitiveEqual (server side of the agreement): the decimal rendering the client sends for an integer in the
+// interoperable range (magnitude at most 2^53-1, both ends included) is accepted for that integer; a string header is
+// accepted exactly for the equal string; and an integer body is matched only by a header that parses to it.
+//@ func primitiveEqual [C12]
+//@   track strconv.ParseFloat as parse
+//@   ensures @an-integer-in-the-interoperable-range-matches-its-own-rendering typeIs(bodyVal, int64) && -9007199254740991 <= bodyVal.(int64) && bodyVal.(int64) <= 9007199254740991
+//@        && headerStr == fmtInt(bodyVal.(int64)) ==> result
+//@   ensures @a-string-matches-exactly-itself typeIs(bodyVal, string) ==> (result <==> headerStr == bodyVal.(string))
+//@   ensures @an-integer-is-matched-only-by-a-header-that-parses-to-it typeIs(bodyVal, int64) && result ==> calls(parse) == 1 && callResult(parse, 1, 1) == nil && toInt64(callResult(parse, 1, 0)) == bodyVal.(int64)
 //@ func encodeHeaderValue [C12]
 //@   track requiresBase64Encoding as wrap
 //@   ensures @plain-strings-are-mirrored-verbatim typeIs(value, string) && calls(wrap) == 1 && !callResult(wrap, 1, 0) ==> result.1 && result.0 == value.(string)
@@ -1397,6 +1407,7 @@ package mcp
 //@ func unmarshalPrimitive [C12]
 //@   modifies extern
 //@   ensures @only-primitives-are-mirrored result == nil || typeIs(result, string) || typeIs(result, bool) || typeIs(result, int64)
+//@   ensures @mirrored-integers-are-in-the-interoperable-range typeIs(result, int64) ==> -9007199254740991 <= result.(int64) && result.(int64) <= 9007199254740991
 // generateParamHeaders: every header name it produces starts with "Mcp-Param-" (so none can replace Mcp-Method or Mcp-Name).
 //@ func generateParamHeaders [C12]
 //@   modifies *
